@@ -202,7 +202,15 @@ let () =
       for k = 1 to Array.length states - 1 do
         f := x_apply s !f (x_diff ko s states.(k - 1) states.(k));
         Printf.printf "%s H%d %s\n" id k (show_val ps !f)
-      done
+      done;
+      if Array.length states > 0 then begin
+        let all = ref [] in
+        for k = 1 to Array.length states - 1 do all := !all @ x_diff ko s states.(k - 1) states.(k) done;
+        let v = show_val ps (x_apply s states.(0) !all) in
+        List.iter (fun tag -> Printf.printf "%s %s %s\n" id tag v) ["HA"; "HAR"; "HAM"];
+        Printf.printf "%s HAS %s\n" id (show_val ps (List.fold_left (fun acc e -> x_apply_single s acc e) states.(0) !all));
+        Printf.printf "%s HN %d\n" id (List.length !all)
+      end
     | "SET" ->
       let id = toks.(1) in let (ko, s, ps) = Hashtbl.find shapes toks.(2) in
       let i = ref 3 in
